@@ -25,23 +25,38 @@ EVERY prefix of every sampled file with the real `GetCache`.
 namespace Vflow.C11
 open Vflow Vflow.CacheFile Vflow.Spec
 
+/-- lookup by key looks at the entries under that key only -/
+theorem lookupKey_filter (c : Cache) (p : CKey × Template → Bool) (k : CKey) (h : ∀ e, e.1 = k → p e = true) :
+    Cache.lookupKey (c.filter p) k = Cache.lookupKey c k := by
+  unfold Cache.lookupKey
+  rw [List.find?_filter]
+  congr 2
+  funext e
+  by_cases he : e.1 = k
+  · simp [he, h e he]
+  · simp [he]
+
 /-- **C11 (restart)**: for every cache reachable by decoding (keys distinct), loading the document
-written for it gives a cache in which every key maps to the same template — so every datagram
+written for it gives a cache in which every key of the 32 shards maps to the same template — so every datagram
 sequence decodes against `load (save c)` exactly as against `c` (lookups are the decoders' only
-access to the cache: `C04.ipfix_data_uses_lookup`, `C04.v9_data_uses_lookup`) -/
-theorem load_save (c : Cache) (hnd : NoDupKeys c) (k : Nat) :
+access to the cache: `C04.ipfix_data_uses_lookup`, `C04.v9_data_uses_lookup`; their keys are `cacheKey a id`,
+whose shard index is below 32: `load_save_lookup` has no such premise) -/
+theorem load_save (c : Cache) (hnd : NoDupKeys c) (k : CKey) (hk : k.1 < 32) :
     Cache.lookupKey (loadDoc (some (docOf c))) k = Cache.lookupKey c k := by
   have hp := docEntries_docOf_perm c
+  have hndf : NoDupKeys (c.filter fun e => e.1.1 < 32) := by
+    unfold NoDupKeys at *; exact (List.filter_sublist.map _).nodup hnd
   have hnd' : NoDupKeys (docEntries (docOf c)) := by
-    unfold NoDupKeys at *; exact (hp.map _).nodup_iff.mpr hnd
+    unfold NoDupKeys at *; exact (hp.map _).nodup_iff.mpr hndf
   simp only [loadDoc, docUsable_docOf, if_true]
-  rw [lookupKey_foldl_insertKey _ hnd' [] k, lookupKey_perm hp hnd' k]
+  rw [lookupKey_foldl_insertKey _ hnd' [] k, lookupKey_perm hp hnd' k,
+    lookupKey_filter c _ k (fun e he => by simp [he, hk])]
   cases Cache.lookupKey c k <;> rfl
 
-/-- the same, at the (exporter, id) level the decoders use -/
+/-- the same, at the (exporter, id) level the decoders use: for every exporter address and template id -/
 theorem load_save_lookup (c : Cache) (hnd : NoDupKeys c) (a : Bytes) (id : Nat) :
     (loadDoc (some (docOf c))).lookup a id = c.lookup a id := by
-  rw [Cache.lookup_eq, Cache.lookup_eq, load_save c hnd]
+  rw [Cache.lookup_eq, Cache.lookup_eq, load_save c hnd _ (shardOf_lt a id)]
 
 /-- the hypothesis of `load_save` holds for every cache reachable from the empty cache (or from any
 loaded cache) by decoding any datagrams, IPFIX and NetFlow v9 -/
@@ -58,7 +73,7 @@ theorem loadDoc_nodup (d : Option Doc) : NoDupKeys (loadDoc d) := by
   | some d =>
     simp only [loadDoc]
     split
-    · suffices ∀ (l : List (Nat × Template)) (acc : Cache), NoDupKeys acc →
+    · suffices ∀ (l : List (CKey × Template)) (acc : Cache), NoDupKeys acc →
           NoDupKeys (l.foldl (fun c e => CacheFile.insertKey c e.1 e.2) acc) from this _ _ List.nodup_nil
       intro l
       induction l with
@@ -90,7 +105,7 @@ theorem load_usable (d : Option Doc) :
 theorem load_subset (d : Doc) : ∀ e ∈ loadDoc (some d), e ∈ docEntries d := by
   simp only [loadDoc]
   split
-  · suffices ∀ (l : List (Nat × Template)) (acc : Cache),
+  · suffices ∀ (l : List (CKey × Template)) (acc : Cache),
         ∀ e ∈ l.foldl (fun c e => CacheFile.insertKey c e.1 e.2) acc, e ∈ l ∨ e ∈ acc by
       intro e he
       rcases this _ [] e he with h | h
@@ -108,6 +123,81 @@ theorem load_subset (d : Doc) : ∀ e ∈ loadDoc (some d), e ∈ docEntries d :
         · left; rw [h]; exact List.mem_cons_self ..
         · right; exact (List.mem_filter.mp h).1
   · intro e he; cases he
+
+/-- every entry of `docEntriesFrom i l` sits in one of the shards `i … i + l.length - 1` -/
+theorem docEntriesFrom_shard (l : List DocShard) : ∀ (i : Nat), ∀ e ∈ docEntriesFrom i l, i ≤ e.1.1 ∧ e.1.1 < i + l.length := by
+  induction l with
+  | nil => intro i e he; cases he
+  | cons s ss ih =>
+    intro i e he
+    simp only [docEntriesFrom, List.mem_append] at he
+    rcases he with he | he
+    · have : e.1.1 = i := by
+        unfold shardEntries at he
+        split at he
+        · obtain ⟨x, _, rfl⟩ := List.mem_map.mp he; rfl
+        · cases he
+      simp only [List.length_cons]; omega
+    · have := ih (i + 1) e he
+      simp only [List.length_cons]; omega
+
+/-- whatever is loaded lies in the 32 shards the decoders index (so `load_save` speaks about every key of a loaded cache) -/
+theorem loadDoc_shard_lt (d : Doc) : ∀ e ∈ loadDoc (some d), e.1.1 < 32 := by
+  intro e he
+  have hm := load_subset d e he
+  by_cases hu : docUsable d = true
+  · simp only [docUsable, Bool.and_eq_true, beq_iff_eq] at hu
+    have := (docEntriesFrom_shard d.shards 0 e hm).2
+    omega
+  · simp [loadDoc, hu] at he
+
+/-! ## Upgrading: a file written before the K1 repair
+
+The old code wrote the entries under the decimal text of the 32-bit hash (`map[uint32]Data`).  Such a file is still
+valid input: `json.Unmarshal` binds the decimal strings as map keys, `valid()` accepts the document, the entries sit in
+the cache (and are written back by every later `Dump`) — but no lookup ever asks for them: a key text built by
+`getShard` for an address of 4 or more octets has at least 12 characters, the decimal text of a 32-bit number at most
+10.  So after the upgrade every lookup answers as on a fresh cache and templates are learnt again from the exporters. -/
+
+theorem natDigits_length_le : ∀ (k n : Nat), n < 10 ^ (k + 1) → (natDigits n).length ≤ k + 1
+  | 0, n, h => by
+    rw [natDigits]; simp only [Nat.zero_add, Nat.pow_one] at h; simp [h]
+  | k+1, n, h => by
+    rw [natDigits]
+    split
+    · simp
+    · have : n / 10 < 10 ^ (k + 1) := by
+        rw [Nat.div_lt_iff_lt_mul (by decide)]; rw [Nat.pow_succ] at h; exact h
+      have := natDigits_length_le k (n / 10) this
+      simp only [List.length_append, List.length_cons, List.length_nil]; omega
+
+theorem hexBytes_length : ∀ (b : Bytes), (hexBytes b).length = 2 * b.length
+  | [] => rfl
+  | _ :: t => by simp only [hexBytes, List.length_cons, hexBytes_length t]; omega
+
+/-- the decimal text of a 32-bit hash is never the key text of an (address, id) pair with an address of ≥ 4 octets -/
+theorem old_key_never_cache_key (n : Nat) (hn : n < 4294967296) (i : Nat) (a : Bytes) (ha : 4 ≤ a.length) (id : Nat) :
+    (i, natDigits n) ≠ cacheKey a id := by
+  intro h
+  have h2 := congrArg (fun k : CKey => k.2.length) h
+  simp only [cacheKey, keyText, keyOctets, hexBytes_length, List.length_append, encBE_length] at h2
+  have := natDigits_length_le 9 n (by omega)
+  omega
+
+/-- a document all of whose keys are decimal texts of 32-bit numbers (what the code before the repair wrote) -/
+def OldFormat (d : Doc) : Prop := ∀ e ∈ docEntries d, ∃ n, n < 4294967296 ∧ e.1.2 = natDigits n
+
+/-- **C11 (upgrade)**: loading a file of the old format gives a usable cache (`load_usable`) in which every lookup —
+any exporter address of 4 or more octets (IPv4 and IPv6 addresses have 4 or 16), any template id — finds nothing: the
+old entries are never used to decode, templates are learnt again -/
+theorem load_old_format_lookup (d : Doc) (hold : OldFormat d) (a : Bytes) (ha : 4 ≤ a.length) (id : Nat) :
+    (loadDoc (some d)).lookup a id = none := by
+  simp only [Cache.lookup, Option.map_eq_none_iff, List.find?_eq_none]
+  intro e he hk
+  obtain ⟨n, hn, hkey⟩ := hold e (load_subset d e he)
+  have hk' : e.1 = cacheKey a id := by simpa using hk
+  apply old_key_never_cache_key n hn e.1.1 a ha id
+  rw [← hkey, ← hk']
 
 /-- unreadable / rejected file ⇒ fresh cache; inconsistent document ⇒ fresh cache -/
 theorem load_rejected : loadDoc none = [] := rfl
@@ -145,7 +235,7 @@ theorem json_valid_prefix_rejected (d : Bytes) (c0 : UInt8) (t : Bytes) (hd : d 
   JsonScan.valid_prefix_rejected d c0 t hd hc0 l z hlast hz hv n hn
 
 /-- the file with real timestamps is the rendering of a well-formed object tree (`JsonPrefix.dumpTree`), 8 deep at most -/
-theorem dump_is_render (ipfix : Bool) (ts : Nat → Int) (c : Cache) :
+theorem dump_is_render (ipfix : Bool) (ts : CKey → Int) (c : Cache) :
     dumpJsonTs ipfix ts c = render (JsonPrefix.dumpTree ipfix ts c) ∧ WF (JsonPrefix.dumpTree ipfix ts c) ∧
       JsonScan.isContainer (JsonPrefix.dumpTree ipfix ts c) = true ∧ JsonScan.depth (JsonPrefix.dumpTree ipfix ts c) ≤ 8 :=
   ⟨JsonPrefix.dumpJsonTs_eq_render ipfix ts c, JsonPrefix.dumpTree_wf ipfix ts c, rfl, JsonPrefix.dumpTree_depth ipfix ts c⟩
@@ -155,12 +245,12 @@ theorem dump_zero (ipfix : Bool) (c : Cache) : dumpJson ipfix c = dumpJsonTs ipf
   JsonPrefix.dumpJsonTs_zero ipfix c
 
 /-- **the file `Dump` writes is valid JSON**, for every cache and every timestamps (both protocols) -/
-theorem dump_valid (ipfix : Bool) (ts : Nat → Int) (c : Cache) : jsonValid (dumpJsonTs ipfix ts c) = true :=
+theorem dump_valid (ipfix : Bool) (ts : CKey → Int) (c : Cache) : jsonValid (dumpJsonTs ipfix ts c) = true :=
   JsonPrefix.dump_valid ipfix ts c
 
 /-- **C11 (crash points)**: every proper prefix of the file `Dump` writes — whatever was written when the
 collector was killed — is rejected by the JSON scanner -/
-theorem dump_prefix_rejected (ipfix : Bool) (ts : Nat → Int) (c : Cache) (n : Nat)
+theorem dump_prefix_rejected (ipfix : Bool) (ts : CKey → Int) (c : Cache) (n : Nat)
     (h : n < (dumpJsonTs ipfix ts c).length) : jsonValid ((dumpJsonTs ipfix ts c).take n) = false :=
   JsonPrefix.dump_prefix_rejected ipfix ts c n h
 
@@ -175,14 +265,14 @@ def bindFile (bindValid : Bytes → Option Doc) (bs : Bytes) : Option Doc :=
 /-- **C11 (crash points, restart)**: the collector killed at ANY point of writing the cache file comes up with a
 fresh, usable cache at the next start — for every cache, every timestamps, every prefix length, both protocols,
 and whatever the library's binding would make of a text -/
-theorem load_prefix (bindValid : Bytes → Option Doc) (ipfix : Bool) (ts : Nat → Int) (c : Cache) (n : Nat)
+theorem load_prefix (bindValid : Bytes → Option Doc) (ipfix : Bool) (ts : CKey → Int) (c : Cache) (n : Nat)
     (h : n < (dumpJsonTs ipfix ts c).length) :
     loadDoc (bindFile bindValid ((dumpJsonTs ipfix ts c).take n)) = [] := by
   simp only [bindFile, dump_prefix_rejected ipfix ts c n h]
   rfl
 
 /-- the complete file does reach the binding (so `load_save` applies to it when the binding yields `docOf c`) -/
-theorem load_whole (bindValid : Bytes → Option Doc) (ipfix : Bool) (ts : Nat → Int) (c : Cache) :
+theorem load_whole (bindValid : Bytes → Option Doc) (ipfix : Bool) (ts : CKey → Int) (c : Cache) :
     bindFile bindValid (dumpJsonTs ipfix ts c) = bindValid (dumpJsonTs ipfix ts c) := by
   simp only [bindFile, dump_valid ipfix ts c, if_true]
 
@@ -196,14 +286,29 @@ def exCache : Cache :=
 example : (exCache.map (·.1)).Nodup := by decide
 example : (loadDoc (some (docOf exCache))).lookup [10,0,0,1] 256 = some ⟨256, 1, 0, [], [⟨8, 4, 0⟩]⟩ := by decide
 /-- non-vacuity of the crash-point theorems on the same two-template cache (IPFIX, timestamps 1700000000 + key):
-the recogniser, evaluated by the kernel, accepts the 956-octet file and rejects the file without its last octet,
+the recogniser, evaluated by the kernel, accepts the 960-octet file and rejects the file without its last octet,
 the file cut inside the first template, and the empty file -/
-def exTs : Nat → Int := fun k => 1700000000 + k
-example : (dumpJsonTs true exTs exCache).length = 956 := by decide +kernel
+def exTs : CKey → Int := fun k => 1700000000 + k.1
+example : (dumpJsonTs true exTs exCache).length = 960 := by decide +kernel
 example : jsonValid (dumpJsonTs true exTs exCache) = true := by decide +kernel
-example : jsonValid ((dumpJsonTs true exTs exCache).take 955) = false := by decide +kernel
+example : jsonValid ((dumpJsonTs true exTs exCache).take 959) = false := by decide +kernel
 example : jsonValid ((dumpJsonTs true exTs exCache).take 300) = false := by decide +kernel
 example : jsonValid ((dumpJsonTs false exTs exCache).take 0) = false := by decide +kernel
+/-- non-vacuity of the upgrade theorem: the file the old code wrote for exporter 10.118.203.99 / template 1039 (hash
+2885243512, shard 24) is of the old format, loads to a one-entry cache, and the lookup for that very exporter and id
+finds nothing (`corpus/C11/*-cachefile--F26-old-format.txt` loads such files with the real `GetCache`) -/
+def exOldDoc : Doc :=
+  ⟨32, List.replicate 24 (some (some [])) ++ [some (some [(natDigits 2885243512, ⟨1039, 1, 0, [], [⟨8, 4, 0⟩]⟩)])] ++
+    List.replicate 7 (some (some []))⟩
+example : docEntries exOldDoc = [((24, natDigits 2885243512), ⟨1039, 1, 0, [], [⟨8, 4, 0⟩]⟩)] := by decide +kernel
+example : OldFormat exOldDoc := by
+  intro e he
+  have : docEntries exOldDoc = [((24, natDigits 2885243512), ⟨1039, 1, 0, [], [⟨8, 4, 0⟩]⟩)] := by decide +kernel
+  rw [this, List.mem_singleton] at he
+  exact ⟨2885243512, by decide, by rw [he]⟩
+example : loadDoc (some exOldDoc) = [((24, natDigits 2885243512), ⟨1039, 1, 0, [], [⟨8, 4, 0⟩]⟩)] := by decide +kernel
+example : oldCacheKey [10, 118, 203, 99] 1039 = 2885243512 ∧ 2885243512 % 32 = 24 := by decide
+example : (loadDoc (some exOldDoc)).lookup [10, 118, 203, 99] 1039 = none := by decide +kernel
 /-- the scanner is not trivial: it accepts a text with whitespace, rejects a trailing comma and a second value -/
 example : jsonValid (str " {\"a\" : [1.5e+3, null]}\n") = true := by decide +kernel
 example : jsonValid (str "{\"a\":[1,]}") = false := by decide +kernel
